@@ -83,14 +83,21 @@ package oidc
 //@   pure
 //@   ensures which: r == StoreFor(self, cfg)
 
+// The ghost bookkeeping (Issued, LastSid, NGen) and A-FRESH are statements about the environment /
+// ghost state, not about the generator's code: implementations are not asked to prove them.
 //@ interface SessionGenerator method GenerateSessionID(self) r
-//@   modifies ghost Issued, ghost LastSid, ghost NGen
-//@   ensures  fresh: !old(Issued)[r] && Issued == store(old(Issued), r, true) && r != "" && LastSid == r && NGen == old(NGen) + 1
+//@   modifies ghost Issued, ghost LastSid, ghost NGen, ghost NDraw
+//@   ensures  fresh: !old(Issued)[r] && Issued == store(old(Issued), r, true) && LastSid == r && NGen == old(NGen) + 1
+//@   assumed  fresh
 //@   ensures  afresh: r != Presented
+//@   assumed  afresh
+//@   ensures  crypto: NDraw == old(NDraw) + 1 && FromCrypto(r, 64, old(NDraw)) && r != ""
 //@ interface SessionGenerator method GenerateNonce(self) r
-//@   pure
+//@   modifies ghost NDraw
+//@   ensures  crypto: NDraw == old(NDraw) + 1 && FromCrypto(r, 32, old(NDraw))
 //@ interface SessionGenerator method GenerateState(self) r
-//@   pure
+//@   modifies ghost NDraw
+//@   ensures  crypto: NDraw == old(NDraw) + 1 && FromCrypto(r, 32, old(NDraw))
 //@ interface SessionGenerator method GenerateCodeVerifier(self) r
 //@   pure
 
@@ -142,3 +149,21 @@ package oidc
 //@ func (*DefaultJWKSProvider).fetchDynamic
 //@   abstractbody
 //@   ensures  fetched: result1 == nil ==> result0 != nil && JwksFetched(config.GetJwksFetcher().JwksUri, result0)
+
+// ---------------------------------------------------------------------------------------------
+// randomGenerator implements SessionGenerator (C06): every identifier is a fixed function of the
+// bytes of one crypto/rand.Read and of nothing else (not of the time, the request or other draws).
+// ---------------------------------------------------------------------------------------------
+
+//@ impl (randomGenerator) SessionGenerator (r, k)
+
+//@ func (*randomGenerator).generate
+//@   requires n >= 0
+//@   modifies ghost NDraw
+//@   ensures  crypto: NDraw == old(NDraw) + 1 && FromCrypto(result, n, old(NDraw))
+//@   loop 1 invariant mapped: forall j int :: 0 <= j && j <= rangeindex ==> b[j] == "abcdefghijklmnopqrstuvwxyzABCDEFGHIJKLMNOPQRSTUVWXYZ0123456789"[CryptoByte(old(NDraw), j) % 62]
+//@   loop 1 invariant pending: forall j int :: rangeindex < j && j < n ==> b[j] == CryptoByte(old(NDraw), j) && 0 <= b[j] && b[j] <= 255
+//@   loop 1 invariant drawn: NDraw == old(NDraw) + 1 && len(b) == n
+
+//@ func NewRandomGenerator
+//@   ensures  secure: result != nil && istype(result, *randomGenerator) && result.(*randomGenerator) != nil
